@@ -1,6 +1,8 @@
 pub mod routing;
 pub mod c01;
+pub mod c02;
 pub mod c03;
+pub mod c10;
 pub mod c13;
 
 use crate::engine::{Ctx, Report};
@@ -8,7 +10,9 @@ use crate::engine::{Ctx, Report};
 pub fn run(ctx: &Ctx) -> Option<Report> {
     Some(match ctx.id.as_str() {
         "C01" => c01::run(ctx),
+        "C02" => c02::run(ctx),
         "C03" => c03::run(ctx),
+        "C10" => c10::run(ctx),
         "C13" => c13::run(ctx),
         _ => return None,
     })
@@ -18,13 +22,18 @@ pub fn run(ctx: &Ctx) -> Option<Report> {
 pub fn replay(id: &str, case: &serde_json::Value) -> Option<Result<(), String>> {
     Some(match id {
         "C01" => c01::replay(case),
+        "C02" => c02::replay(case),
         "C03" => c03::replay(case),
+        "C10" => c10::replay(case),
         "C13" => c13::replay(case),
         _ => return None,
     })
 }
 
 /// child-process entry points (E-PROC)
-pub fn child(_name: &str, _args: &[String]) -> Option<i32> {
-    None
+pub fn child(name: &str, args: &[String]) -> Option<i32> {
+    Some(match name {
+        "c02" => c02::child(args),
+        _ => return None,
+    })
 }
